@@ -34,6 +34,13 @@ def loop_src(loop, finite):
         return "var i=0; while (%s) { switch (i & 1) { case 0: i++; continue; default: i++; continue } } r = i;" % ("i<40" if finite else "true")
     if loop == "logical_for":
         return "var i=0; for (; %s; ) i++; r = i;" % ("i<40 && i>=0" if finite else "i<0 || i>=0")
+    if loop == "native_nest":
+        # built-ins driving built-ins: no interpreter instruction is executed while the nest runs (60^4 callback calls)
+        return ("var a = []; for (var i=0;i<%d;i++) a.push(i); var f = Math.abs; for (var d=0; d<%d; d++) f = a.forEach.bind(a, f); f(); r = a.length;"
+                % ((3, 1) if finite else (60, 4)))
+    if loop == "native_nest_map":
+        return ("var a = []; for (var i=0;i<%d;i++) a.push(i); var f = String; for (var d=0; d<%d; d++) f = a.map.bind(a, f); f(); r = a.length;"
+                % ((3, 1) if finite else (40, 5)))
     if loop == "regex_backtrack":
         return "r = /(a+)+b/.test(%s) ? 1 : 0;" % ("'aaab'" if finite else SUBJ)
     if loop == "regex_loop":
@@ -177,7 +184,7 @@ def driver(case, api):
             out = api.run(lambda: ctx.eval(src), wall=40.0, cap=int(T) + 3_000_000, tick=1.0, deadline=T)
     late = dict(api.steps.late)
     res = {"id": case["id"], "finite": bool(case["finite"]), "o": out["o"], "steps": out["steps"], "t": case["t"],
-           "lateV": late["main"] + late["cb"], "lateR": late["re"] + late["la"] + late["lb"],
+           "lateV": late["main"] + late["cb"] + late.get("native", 0), "lateR": late["re"] + late["la"] + late["lb"],
            "isnum": out["o"] == "value" and isinstance(out.get("pv"), (int, float)) and not isinstance(out.get("pv"), bool),
            "info": (out.get("type", "") + " " + out.get("where", "") + " " + out.get("msg", ""))[:160], "src": src,
            "clockreads": api.vclock.reads}
